@@ -284,3 +284,35 @@ def clone(node):
         if hasattr(node, a):
             setattr(new, a, getattr(node, a))
     return new
+
+
+def str_template(node):
+    """'train_{}.txt' for f-strings, "..".format(..) and plain constants;
+    None otherwise.  Placeholders are rendered as {} (or {name} for simple
+    names: see `str_template_named`)."""
+    if isinstance(node, ast.Constant) and isinstance(node.value, str):
+        return node.value
+    if isinstance(node, ast.JoinedStr):
+        out = ""
+        for v in node.values:
+            if isinstance(v, ast.Constant):
+                out += str(v.value)
+            else:
+                out += "{}"
+        return out
+    if isinstance(node, ast.Call) and isinstance(node.func, ast.Attribute) \
+            and node.func.attr == "format" and isinstance(
+                node.func.value, ast.Constant):
+        return node.func.value.value
+    return None
+
+
+def str_template_args(node):
+    """the expressions filling the placeholders of a template (texts)"""
+    if isinstance(node, ast.JoinedStr):
+        return [norm(v.value) for v in node.values
+                if isinstance(v, ast.FormattedValue)]
+    if isinstance(node, ast.Call) and isinstance(node.func, ast.Attribute) \
+            and node.func.attr == "format":
+        return [norm(a) for a in node.args]
+    return []
